@@ -255,7 +255,9 @@ void runTs(const TsScn &sc)
       svc->stop();
     else
     {
-      auto r = svc->drain(50);
+      if (sc.term == 4)
+        std::this_thread::sleep_for(milliseconds(30)); // a handler that started at 20 ms and takes 30 ms is in the middle of its run
+      auto r = svc->drain(sc.term == 4 ? 200 : 50);
       mc_obs("drain=%d", int(r.success));
       if (!r.success)
         goto joinOnly; // timed-out drain restores Running: nothing to assert about quietness
@@ -293,6 +295,7 @@ const TsScn TS[] = {
   {"ts_stop_concurrent", "aza", "", 1, 2, 1, 3, 2},
   {"ts_drain_concurrent", "az", "a", 2, 1, 1, 2, 2},
   {"ts_slow_handler_stop", "Ss", "", 1, 2, 2, 3, 2},
+  {"ts_slow_handler_drain", "S", "", 4, 1, 1, 2, 2}, // term 4: drain(200 ms) called while the slow handler runs
   {"ts_late_schedule", "al", "", 1, 1, 1, 2, 1},
   {"ts_dtor", "az", "", 3, 1, 1, 2, 2},
 };
